@@ -80,7 +80,7 @@ CHECKS = {
              'root (13 chains x 3 observers: len+iteration+repr+empty slice+bool in one, the chain walked twice, and the element at '
              'the end dereferenced through .value / .to_er7() / .children; root '
              'to_er7 / validate / children; writes by assignment, .value and datatype object at the end of each chain); all '
-             'histories to depth 3 (thorough: 4 from five roots, 3 from the others). A read must leave encoding (also with trailing children), recursive listing and validation report identical; '
+             'histories to depth 3 (thorough: 4 from three roots, 3 from the others). A read must leave encoding (also with trailing children), recursive listing and validation report identical; '
              'a write must produce the reference encoding of old content + value at that position and the newly listed elements '
              'must lie on one path. Sweep: every leaf path of every 4th (thorough: every) segment of v2.5 (+2.8.2, 2.3) is read '
              'on an empty segment, then written.',
@@ -193,7 +193,7 @@ CHECKS = {
              'version with calls that name their version probed after every execution) '
              '(forced collision on one version, and mixed version/level variants) are executed under every schedule with at '
              'most 2 preemptions (small x small), 1 preemption (small/medium x medium, 3 threads) and both serial orders '
-             '(large bodies) in the quick tier, ~470,000 complete executions; thorough raises the bounds (small pairs: 3 preemptions at line granularity and 2 at bytecode '
+             '(large bodies) in the quick tier, ~470,000 complete executions; thorough raises the bounds (small bodies: 3 preemptions at line granularity for a body with itself, 2 at bytecode '
              'granularity in the shared-state functions; 1 for large bodies at shared-touching lines). Every thread must observe '
              'exactly what the same call observes alone, and the fingerprint of every module global, module-level container and '
              'class-level data attribute of the library (and a digest of the tables) must be unchanged after every execution.',
